@@ -1,116 +1,126 @@
 package rules
 
 import (
-	"fmt"
 	"go/ast"
 	"go/token"
-	"go/types"
-	"sort"
-	"strings"
 
 	"lachk/core"
 )
-
-var _ = fmt.Sprint
-var _ ast.Node
-var _ token.Pos
-var _ types.Object
-var _ = sort.Strings
-var _ = strings.TrimSpace
 
 // c05ForkPairs: forks that no parent has seen are found by testing whether two branches of one
 // creator overlap in the event's merged view. The test has to range over every pair of the creator's
 // branches: a fork of a fork (or a three-way fork) shows up only between two side branches, so a scan
 // that pairs every branch with one fixed branch misses it, and ForklessCause then answers 'true' for
 // an event whose ancestry shows a fork by that creator.
+//
+// The overlap test is looked for in fillEventVectors and in every vecengine function it reaches through
+// static calls (the pair scan may live in a helper); the two loops are recognised as iterations
+// (range or counted, element taken by value variable, by index, or through single-definition locals).
 func c05ForkPairs(c *core.Ctx) {
 	c.Clause("C05.forkpairs", func() {
-		f := c.Fn("vecengine.Engine.fillEventVectors")
-		// overlap tests: conditions containing both MinSeq(..) and Seq(..) calls on the vector
+		root := c.Fn("vecengine.Engine.fillEventVectors")
+		// overlap tests: branch conditions containing both MinSeq(..) and Seq(..) calls on the vector
 		type test struct {
+			f    *core.FuncInfo
 			cond ast.Expr
-			args []*types.Var
+			args []ast.Expr
 		}
 		var tests []test
-		for _, b := range f.CFG().Blocks {
-			cond := f.BranchCond(b)
-			if cond == nil || !b.Live {
+		for _, f := range core.ReachableFuncs(c.P, []*core.FuncInfo{root}, false) {
+			if core.RelPkg(f.Pkg.PkgPath) != "vecengine" {
 				continue
 			}
-			var mins []*ast.CallExpr
-			hasSeq := false
-			ast.Inspect(cond, func(n ast.Node) bool {
-				if call, ok := n.(*ast.CallExpr); ok {
-					nm := calleeName(f, call)
-					if methodNamed(nm, "MinSeq") {
-						mins = append(mins, call)
+			for _, b := range f.CFG().Blocks {
+				cond := f.BranchCond(b)
+				if cond == nil || !b.Live {
+					continue
+				}
+				var mins []*ast.CallExpr
+				hasSeq := false
+				ast.Inspect(cond, func(n ast.Node) bool {
+					if call, ok := n.(*ast.CallExpr); ok {
+						nm := calleeName(f, call)
+						if methodNamed(nm, "MinSeq") {
+							mins = append(mins, call)
+						}
+						if methodNamed(nm, "Seq") {
+							hasSeq = true
+						}
 					}
-					if methodNamed(nm, "Seq") {
-						hasSeq = true
+					return true
+				})
+				if len(mins) == 0 || !hasSeq {
+					continue
+				}
+				t := test{f: f, cond: cond}
+				for _, m := range mins {
+					if len(m.Args) == 1 {
+						t.args = append(t.args, m.Args[0])
+					}
+				}
+				tests = append(tests, t)
+			}
+		}
+		c.ExpectAtLeast("branch-overlap tests in fillEventVectors", len(tests), 1)
+
+		// the iteration (loop over a collection) whose current element the expression denotes
+		iterOf := func(f *core.FuncInfo, x ast.Expr) *core.Iteration {
+			resolve := func(e ast.Expr) ast.Expr { return resolveLocal(f, e) }
+			var found *core.Iteration
+			f.InspectOwn(func(n ast.Node) bool {
+				switch n.(type) {
+				case *ast.ForStmt, *ast.RangeStmt:
+					if !(n.Pos() <= x.Pos() && x.End() <= n.End()) {
+						return true
+					}
+					if it, ok := core.IterationOf(f, n.(ast.Stmt), resolve); ok && it.IsElem(x, resolve) {
+						found = it // innermost enclosing iteration that yields x
 					}
 				}
 				return true
 			})
-			if len(mins) == 0 || !hasSeq {
-				continue
-			}
-			t := test{cond: cond}
-			for _, m := range mins {
-				if len(m.Args) == 1 {
-					t.args = append(t.args, varOf(f, m.Args[0]))
-				}
-			}
-			tests = append(tests, t)
+			return found
 		}
-		c.ExpectAtLeast("branch-overlap tests in fillEventVectors", len(tests), 1)
-		// resolve a variable through single-definition aliases to the range statement that defines it
-		rangeOf := func(v *types.Var) *ast.RangeStmt {
-			for depth := 0; depth < 4 && v != nil; depth++ {
-				var found *ast.RangeStmt
-				f.InspectOwn(func(n ast.Node) bool {
-					if rs, ok := n.(*ast.RangeStmt); ok && rs.Value != nil && varOf(f, rs.Value) == v {
-						found = rs
-					}
-					return true
-				})
-				if found != nil {
-					return found
-				}
-				as := assignsToVar(f, v)
-				if len(as) != 1 || as[0].RHS == nil {
-					return nil
-				}
-				v = varOf(f, as[0].RHS)
+		// the collection is the full list of one creator's branches: BranchIDByCreators[k] (not a sub-slice)
+		creatorOf := func(f *core.FuncInfo, it *core.Iteration) (ast.Expr, bool) {
+			if it.Coll == nil || !it.FromZero {
+				return nil, false
 			}
-			return nil
-		}
-		fullBranchList := func(rs *ast.RangeStmt) bool {
-			ix, ok := ast.Unparen(rs.X).(*ast.IndexExpr) // a SliceExpr (sub-range) is not the full list
+			ix, ok := ast.Unparen(resolveLocal(f, it.Coll)).(*ast.IndexExpr)
 			if !ok {
-				return false
+				return nil, false
 			}
 			_, pth := fieldPath(f, ix.X)
-			return len(pth) >= 1 && pth[len(pth)-1] == "vecengine.BranchesInfo.BranchIDByCreators"
+			if len(pth) == 0 || pth[len(pth)-1] != "vecengine.BranchesInfo.BranchIDByCreators" {
+				return nil, false
+			}
+			return ix.Index, true
+		}
+		sameIndex := func(f *core.FuncInfo, a, b ast.Expr) bool {
+			va, vb := canonVar(f, varOf(f, core.StripConv(f.Info(), a))), canonVar(f, varOf(f, core.StripConv(f.Info(), b)))
+			return va != nil && va == vb
 		}
 		for _, t := range tests {
-			ok := len(t.args) == 2 && t.args[0] != nil && t.args[1] != nil && t.args[0] != t.args[1]
+			f := t.f
+			ok := len(t.args) == 2 && canonVar(f, varOf(f, t.args[0])) != canonVar(f, varOf(f, t.args[1]))
 			if ok {
-				r0, r1 := rangeOf(t.args[0]), rangeOf(t.args[1])
-				ok = r0 != nil && r1 != nil && r0 != r1 && fullBranchList(r0) && fullBranchList(r1) &&
-					((r0.Pos() <= r1.Pos() && r1.End() <= r0.End()) || (r1.Pos() <= r0.Pos() && r0.End() <= r1.End()))
+				i0, i1 := iterOf(f, t.args[0]), iterOf(f, t.args[1])
+				ok = i0 != nil && i1 != nil && i0.Stmt != i1.Stmt &&
+					((i0.Stmt.Pos() <= i1.Stmt.Pos() && i1.Stmt.End() <= i0.Stmt.End()) || (i1.Stmt.Pos() <= i0.Stmt.Pos() && i0.Stmt.End() <= i1.Stmt.End()))
 				if ok {
-					// both loops range over the branches of the same creator
-					k0 := ast.Unparen(r0.X).(*ast.IndexExpr).Index
-					k1 := ast.Unparen(r1.X).(*ast.IndexExpr).Index
-					ok = varOf(f, k0) != nil && varOf(f, k0) == varOf(f, k1)
+					// both loops range over all branches of the same creator
+					k0, full0 := creatorOf(f, i0)
+					k1, full1 := creatorOf(f, i1)
+					ok = full0 && full1 && sameIndex(f, k0, k1)
 				}
 			}
-			c.Check(ok, "undetected forks are searched over every pair of the creator's branches", "T8 coverage (nested ranges over the same branch list)", t.cond.Pos(),
+			c.Check(ok, "undetected forks are searched over every pair of the creator's branches", "T8 coverage (nested iterations over the same branch list)", t.cond.Pos(),
 				"both operands of the overlap test range independently over all branches of the same creator",
-				"the overlap test does not cover every pair of the creator's branches (an operand is fixed or ranges over a sub-list): a fork between two side branches is missed, ForklessCause answers true although the ancestry shows a fork by that creator")
+				"the overlap test in "+short(f.Name)+" does not cover every pair of the creator's branches (an operand is fixed or ranges over a sub-list): a fork between two side branches is missed, ForklessCause answers true although the ancestry shows a fork by that creator")
 		}
 		// the test is symmetric: MinSeq(a) <= Seq(b) && MinSeq(b) <= Seq(a)
 		for _, t := range tests {
+			f := t.f
 			facts := core.Decompose(t.cond, true)
 			n := 0
 			for _, ft := range facts {
